@@ -16,7 +16,13 @@ LEVEL_TEXT = ("TLA+ module XmlDoc defines the documented subset twice, independe
               "documents over a 58-symbol alphabet (27 fixed symbols + the bytes 0x85 0x89 0x8A 0x8D 0xA0 0xC9 0xCA 0xCD 0xE0 + 22 seeded further bytes "
               ">= 0x80) incl. dash runs, NUL, VT, FF, 0x1C-0x1F, DEL, 0x80 and 0xFF (always among them documents with blank-padded "
               "text), every character-data run of length <= 3 over { t, space, LF, tab, VT, FF } in three positions, seeded random token and byte strings, documents nested 2000 deep - only the way the call ends is constrained "
-              "(returned, or std::runtime_error; the admissible set is supplied by the specification); every other ending (sanitizer report, "
+              "(returned, or std::runtime_error; the admissible set is supplied by the specification).  Boundaries: documents defined by formula "
+              "(a name / value / content / comment / blank run of n characters, n attributes, n children, files of exactly n bytes, chains "
+              "n deep, n at 0 1 2 127..129 255..257 511..513 1023..1025 4095..4097 8191..8193 65535..65537 2^20-1..2^20+1) are built by the "
+              "driver, the returned tree is compared in run-length compressed form with the formula tree, and TLC checks formula = parser "
+              "for n <= 9; every byte value first / last in names, control bytes first / last in every field; the accessors getProp / hasProp "
+              "are compared with the property map.  History: all sequences of <= 3 files from a pool of 8 read in a fresh process must give "
+              "the per-file expectation and equal observations for equal bytes; the same on 4 threads released together; every other ending (sanitizer report, "
               "signal, other exception type, no progress for 120 s) is attributed to its input in a forked child, judged and classified by "
               "TLC (lexical context in which the input ends) and re-run once before it is reported.  Code -> spec: seeded random larger "
               "documents with per-occurrence random layout are read by the real code and TLC's reference parser decides whether the "
@@ -31,7 +37,7 @@ LEVEL_NOTE = ("exhaustive over: 4 core trees (two attributes, both quote charact
               "string of length <= 6 (thorough 7) over { < > / = \" a space ! }; every content run of length <= 3 over 6 symbols x 3 positions (trees "
               "for the runs inside the subset, the ending only for runs with VT / FF).  Sampled only: mutations (seeded sample of the generated "
               "documents), random strings, random larger documents.  Not decided: totality over all byte strings (only the enumerated / "
-              "derived / sampled corpus), nesting deeper than 2000 (the ASan build exhausts the 8 MB stack between 3500 and 4000 levels: the "
+              "derived / sampled corpus), files of 2^31 bytes and more, directories / unreadable files, nesting deeper than 2000 (the ASan build exhausts the 8 MB stack between 3500 and 4000 levels: the "
               "statement assumes bounded depth), files that cannot be opened or sized, locale-dependent isalpha, "
               "entities / CDATA / DOCTYPE / names with '-' or ':' (outside the subset the reader documents; only their safe ending is "
               "checked).  The accept/reject decision outside the subset is deliberately not compared (the reader may be lenient).  "
@@ -56,7 +62,9 @@ def tlc_env(**kw):
     tab = os.path.join(d, "c16-bytes-%d.ndjson" % os.getpid())
     if not os.path.exists(tab):
         with open(tab, "w") as f:
-            f.write(json.dumps({"codes": list(range(33, 256)), "chars": [chr(c) for c in range(33, 256)]}) + "\n")
+            ctl = [c for c in range(32) if c not in (9, 10, 13)]
+            f.write(json.dumps({"codes": list(range(33, 256)), "chars": [chr(c) for c in range(33, 256)],
+                                "ctlcodes": ctl, "ctlchars": [chr(c) for c in ctl]}) + "\n")
     e = dict(JAVA_ENV, XML_BYTES=tab, XML_VT="\x0b")
     e.update(kw)
     return e
@@ -293,6 +301,61 @@ def report_unsafe(cx, bad, tag):
             chk.violation(sig, what, rep)
 
 
+SINGLE = ("Nest", "Big", "ReadMissing", "ReadSeq", "ReadThreads")     # actions whose history is one call (or one short sequence of calls)
+
+
+def check_single(cx, h, r, tag):
+    """Nest / Big / ReadMissing / ReadSeq / ReadThreads: expectations computed by TLC (formula documents, function-of-the-bytes law)"""
+    chk = cx.chk
+    st = h[0]
+    a, arg, exp = st["a"], st["arg"], st.get("exp", {})
+    cls = {"Nest": lambda: "depth=%s,form=%s" % (arg["depth"], arg["form"]), "Big": lambda: "%s,n=%s" % (arg["kind"], arg["n"]),
+           "ReadMissing": lambda: "no-such-file", "ReadSeq": lambda: "", "ReadThreads": lambda: "threads=%d" % len(arg["threads"])}[a]()
+
+    def report(cls_, field, expected, observed):
+        chk.violation(sig_of(API, {"action": a, "cls": cls_, "field": family_path(field)}),
+                      "%s: %s(%s): %s expected %s observed %s" % (API, a, json.dumps({k: v for k, v in arg.items() if k not in ("docs", "threads")} or cls_)[:200],
+                                                                  field, json.dumps(expected)[:300], json.dumps(observed)[:300]),
+                      {"kind": "history", "property": chk.pid, "tag": tag, "sig_prefix": API, "meta": None, "history": h, "admitted": cx.safe})
+
+    if "crash" in r or "timeout" in r:
+        kind = "crash" if "crash" in r else "timeout"
+        cx.calls += 1
+        return report(cls, kind, cx.safe, r[kind])
+    o = r["obs"][0]
+    if "unexpected_exception" in o or "unknown_action" in o:
+        raise tla.InfraError("driver failed on %s: %s" % (a, o))
+
+    def step(cls_, path, e, ob):
+        """one call: e = expectation of the specification (tree, or only the admitted endings)"""
+        cx.calls += 1
+        if ob.get("outcome") not in cx.safe:
+            return report(cls_, path + "/outcome", cx.safe, ob.get("outcome"))
+        e2 = {k: v for k, v in e.items() if k != "outcomes"}
+        if "doc" in e2 and "doc" in ob and e2["doc"] != ob["doc"]:
+            raise tla.InfraError("the driver builds another document than the specification: %r / %r" % (e2["doc"], ob["doc"]))
+        mm = adt.subset_mismatch(e2, ob)
+        if mm:
+            report(cls_, path + mm[0], mm[1], mm[2])
+
+    if a in ("Nest", "Big", "ReadMissing"):
+        step(cls if a != "Big" else arg["kind"], "", exp, o)
+    elif a == "ReadSeq":
+        for i, (e, ob) in enumerate(zip(exp["steps"], o["steps"])):
+            step(exp["cls"][i], "", e, ob)
+            first = o["steps"][exp["same"][i] - 1]
+            if ob != first:
+                mm = adt.subset_mismatch(first, ob) or ("", first, ob)
+                report(exp["cls"][i], "/differs-from-first-read-of-the-same-bytes" + mm[0], mm[1], mm[2])
+    else:
+        for t, (es, obs) in enumerate(zip(exp["threads"], o["threads"])):
+            for e, ob in zip(es, obs):
+                step(cls, "", e, ob["first"])
+                cx.calls += arg["rounds"] - 1
+                if ob["distinct"] != exp["distinct"]:
+                    report(cls, "/distinct-observations-of-one-file", exp["distinct"], ob["distinct"])
+
+
 def check_bulk(cx, hs, results, tag):
     """hs: bulk histories (one step each); collects the inputs whose outcome the specification does not admit"""
     chk = cx.chk
@@ -300,31 +363,14 @@ def check_bulk(cx, hs, results, tag):
     skipped = {"not_run": 0, "not_listed": 0}
     for h, r in zip(hs, results):
         st = h[0]
-        if "crash" in r or "timeout" in r:
-            # the driver process itself died outside the per-input children: the action as a whole is the input
-            kind = "crash" if "crash" in r else "timeout"
-            cls = ",".join("%s=%s" % (k, st["arg"][k]) for k in sorted(st["arg"]) if k in ("depth", "form"))
-            if st["a"] != "Nest":
-                raise tla.InfraError("bulk action %s died outside its children: %s" % (st["a"], r))
-            chk.violation(sig_of(API, {"action": "Nest", "cls": cls, "field": kind}),
-                          "%s: document nested %s deep (%s) ended in %s: %s" % (API, st["arg"]["depth"], st["arg"]["form"], kind, r[kind]),
-                          {"kind": "history", "property": chk.pid, "tag": tag, "sig_prefix": API, "meta": None, "history": h})
-            cx.calls += 1
+        if st["a"] in SINGLE:
+            check_single(cx, h, r, tag)
             continue
+        if "crash" in r or "timeout" in r:
+            raise tla.InfraError("bulk action %s died outside its children: %s" % (st["a"], r))
         o = r["obs"][0]
         if "unexpected_exception" in o or "unknown_action" in o:
             raise tla.InfraError("driver failed on %s: %s" % (st["a"], o))
-        if st["a"] == "Nest":
-            cx.calls += 1
-            mm = adt.subset_mismatch(st["exp"], o) if "outcome" in st["exp"] else None
-            if o["outcome"] not in cx.safe:
-                mm = ("/outcome", cx.safe, o["outcome"])
-            if mm:
-                cls = "depth=%s,form=%s" % (st["arg"]["depth"], st["arg"]["form"])
-                chk.violation(sig_of(API, {"action": "Nest", "cls": cls, "field": mm[0]}),
-                              "%s: document nested %s deep (%s): %s expected %s observed %s" % (API, st["arg"]["depth"], st["arg"]["form"], mm[0], mm[1], mm[2]),
-                              {"kind": "history", "property": chk.pid, "tag": tag, "sig_prefix": API, "meta": None, "history": h})
-            continue
         if "count" in st.get("exp", {}) and o["count"] != st["exp"]["count"]:
             raise tla.InfraError("driver enumerated %d strings, the specification %d: %s" % (o["count"], st["exp"]["count"], st["arg"]))
         notrun = o["outcomes"].get("not_run", 0)
@@ -452,7 +498,7 @@ def do_run(cx, quick, rnd):
     # ---- 1. TLC: laws of the specification + cases -------------------------------------------------------
     cfg = "XmlDocGen_quick.cfg" if quick else "XmlDocGen_thorough.cfg"
     cases = sort_keys(funcheck.gen_cases(chk, SPEC, "XmlDocGen", cfg, "c16-gen", workers=16, timeout=3000, env=tlc_env(),
-                                         what="RoundTrip, WellFormed, PrefixLaw, ShortLaw, ContentLaw, DashLaw, ByteLaw on every slice; one case per document of the subset"))
+                                         what="RoundTrip, WellFormed, PrefixLaw, ShortLaw, ContentLaw, DashLaw, ByteLaw, NameLaw, CtlLaw, BigLaw on every slice; one case per document of the subset"))
     reads = [c for c in cases if c["a"] == "Read"]
     enums = [c for c in cases if c["a"] == "Enumerate"]
     policy = [c for c in cases if c["a"] == "Policy"]
@@ -516,11 +562,17 @@ def do_run(cx, quick, rnd):
     for k in range(nrand // per):
         bulk.append([{"a": "Random", "arg": {"seed": chk.seed * 1000 + k, "n": per, "maxtok": 3 + (k % 4) * 6, "tokens": RANDOM_TOKENS, "quiet": cx.safe},
                       "exp": {"outcomes": cx.safe}}])
-    for depth in ([2000] if quick else [500, 2000]):
-        # the closed form is a document of the subset: Render(chain of `depth` nodes named a, Plain); ParseDoc is not evaluated that deep,
-        # the expectation is the statement's (same names, children in the same order): a chain of the same depth
-        bulk.append([{"a": "Nest", "arg": {"depth": depth, "form": "closed"}, "exp": {"outcome": "ok", "depth": depth, "chain": True}}])
-        bulk.append([{"a": "Nest", "arg": {"depth": depth, "form": "open"}, "exp": {}}])
+    # formula-defined documents at the numeric boundaries, chains, a missing file, histories of reads, reads on several threads
+    singles = [c for c in cases if c["a"] in SINGLE]
+    for c in singles:
+        bulk.append([c])
+    nsingle = {a: sum(1 for c in singles if c["a"] == a) for a in SINGLE}
+    chk.cov["formula_documents"] = nsingle["Big"]
+    chk.cov["read_histories"] = nsingle["ReadSeq"]
+    sizes = {c["exp"]["bytes"] for c in singles if c["a"] == "Big"}
+    if (nsingle["Big"] < 150 or nsingle["Nest"] < 20 or nsingle["ReadSeq"] < 500 or nsingle["ReadThreads"] < 3 or nsingle["ReadMissing"] != 1
+            or not {4095, 4096, 4097, 65535, 65536, 65537, 1048576} <= sizes):
+        raise tla.InfraError("vacuity guard: boundary / history cases missing: %s" % nsingle)
     chk.count_actions(bulk)
     t0 = time.time()
     res = run_parallel(cx, bulk, "c16-bulk", 1, cx.meta(hang_s=HANG_S, max_crashes=600, max_inputs=600), jobs=8, env={"ASAN_OPTIONS": BULK_ASAN})
@@ -563,7 +615,7 @@ def do_run(cx, quick, rnd):
     chk.add_sample({"kind": "recorded-observation-input", "doc": jdocs[0][:300]}, maxn=4)
 
     chk.cov["evaluations"] = cx.calls
-    chk.require_actions(["Read", "Enumerate", "Mutations", "Batch", "Random", "Nest"])
+    chk.require_actions(["Read", "Enumerate", "Mutations", "Batch", "Random", "Nest", "Big", "ReadSeq", "ReadThreads", "ReadMissing"])
     # vacuity guard: every byte value 0x80..0xFF stood at the start and at the end of a text content that was read and compared
     at_start, at_end, in_value = set(), set(), set()
     for c in reads:
@@ -618,7 +670,7 @@ def do_replay(cx, path):
     cx.safe = rep.get("admitted") or ["ok", "runtime_error"]
     if rep["kind"] == "history":
         h = rep["history"]
-        if h[0]["a"] == "Nest":
+        if h[0]["a"] in SINGLE:
             res = run_parallel(cx, [h], "replay", 1, cx.meta(hang_s=HANG_S), jobs=1)
             check_bulk(cx, [h], res, "replay")
         else:
